@@ -334,6 +334,8 @@ def h_image(shape: int, mode: int, freq: int, top: int, perm: int, fill: int, ve
         s0 = dict(name="Smp0", words=_words(500, 1), freq_code=1)
         s2 = dict(name="Smp2", words=_words(300, 3), mode=2, freq_code=3)
         s3 = dict(name="Unused", words=_words(40, 4))        # referenced by nobody: must not be exported
+        # a second sample stored inside Smp1's chain (same FAT head), one cluster further in: its audio is the rest of Smp1's
+        s4 = dict(name="Smp4", words=s1["words"][9216:], share_with=1, cluster_top=top + 1, mode=2, freq_code=4)
         if shape == 0:      # one volume, one performance
             vols, perfs = [("VolA", [0])], [("Perf0", [0])]
         elif shape == 1:    # shared performance + orphan performance
@@ -343,7 +345,7 @@ def h_image(shape: int, mode: int, freq: int, top: int, perm: int, fill: int, ve
         else:               # orphan only through sharing (the C02b situation)
             vols, perfs = [("VolA", [0, 1]), ("VolB", [0])], [("Perf0", [0, 1]), ("Perf1", [0]), ("Perf2", [1])]
         model = {"volumes": vols, "performances": perfs, "patches": [("Patch0", [0]), ("Patch1", [1])],
-                 "partials": [("Part0", [0, 1, 0]), ("Part1", [2, 2])], "samples": [s0, s1, s2, s3], "fat_version": ver}
+                 "partials": [("Part0", [0, 1, 0]), ("Part1", [2, 2, 4])], "samples": [s0, s1, s2, s3, s4], "fat_version": ver}
         img = rolandw.build(model)
         try:
             image = actions.determine_image_type(io.BufferedReader(io.BytesIO(img)))
@@ -354,7 +356,7 @@ def h_image(shape: int, mode: int, freq: int, top: int, perm: int, fill: int, ve
             return 0
         got = dict(res[1])
         smp = model["samples"]
-        patch_samples = {0: [0, 1], 1: [2]}                 # patch -> partial -> samples, each distinct sample once (no sample shared by two
+        patch_samples = {0: [0, 1], 1: [2, 4]}              # patch -> partial -> samples, each distinct sample once (no sample shared by two
         #                                                     patches of one performance: whether that is one file or two is not claimed)
         exp = {}
         referenced = set()
@@ -476,7 +478,7 @@ def obligations(tier, seed):
                           [f"shape == {shape}", f"mode == {mode}"] + (["freq <= 1 and ver == 1 + (perm % 2)"] if q else []),
                           "sampling-frequency code, cluster_top, chain permutation, exact cluster fill, FAT version",
                           "whole S-770 images (2.9 MB) from the independent writer through determine_image_type + export; concrete per path",
-                          ["independent S-770 writer", "in-memory export"]))
+                          ["independent S-770 writer", "export to a temporary directory, read back"]))
     for nvol in (0, 1, 2):
         obs.append(ob(f"C02.orphans/volumes={nvol}", "h_orphans", [f"nvol == {nvol}"], "which directory slots hold performances, which performances each volume references",
                       "<= 3 performances, <= 2 volumes x <= 2 references (shared and orphaned)", ["stub volume list", "synthetic performance directory area"]))
